@@ -673,8 +673,21 @@ Record claim_obs := {
                                     and the key stored by Wallets.addWallet) *)
   q_ok : bool;                   (* the client's claim hash = Keccak256(q_pre) *)
   q_wallet_pre : bytes;          (* driver's copy of the contract's wallet-ID preimage *)
-  q_wallet_ok : bool             (* CalculateWalletID = Keccak256(q_wallet_pre) *)
+  q_wallet_ok : bool;            (* CalculateWalletID = Keccak256(q_wallet_pre) *)
+  q_accepted : bool;             (* every signature in the map passed inactivityClaimSigner.VerifySignature
+                                    with the public key of its seat's operator *)
+  q_members : list N;            (* groupMembers: the operator id of every seat *)
+  q_recovered : list N           (* per 65-byte chunk of claim.signatures: the operator id whose address
+                                    OZ-recover yields under the contract's message hash
+                                    Keccak256(prefix ++ Keccak256(q_pre)); 0 = none *)
 }.
+(* the signature loop of verifyClaim (I:140-155) with the recovered signers read from the
+   observation: chunk i must recover to the operator of seat signingMembersIndices[i] *)
+Definition claim_signatures_ok_tbl (k : claim) (members recovered : list N) : bool :=
+  match signing_ids members (k_signing k) with
+  | Some ids => (lenN recovered =? lenN (k_sigs k) / 65) && zip_eqb recovered ids
+  | None => false
+  end.
 Definition valid_claimb (inact_threshold : N) (c : claim_in) : bool :=
   let n := c_nmembers c in
   (n <=? 255) && negb (lenN (c_raw c) =? 0) && forallb (in_range n) (c_raw c)
@@ -698,6 +711,9 @@ Definition spec_claim (inact_threshold : N) (c : claim_in) (o : claim_obs) : boo
                   (q_pre o)
       && q_ok o
       && list_eqb (contract_wallet_preimage pk) (q_wallet_pre o) && q_wallet_ok o
+      (* every signature the client accepted recovers to the operator of its seat *)
+      && (negb (q_accepted o && (lenN (q_members o) =? c_nmembers c))
+          || claim_signatures_ok_tbl k (q_members o) (q_recovered o))
   | _, _ => false
   end.
 Definition agree_claim (c : claim_in) (o : claim_obs) : bool :=
@@ -732,8 +748,10 @@ Definition consts_ok (k : consts) : bool :=
 
 Inductive case :=
 (* via_submit: through pkg/tbtc dkgResultSubmitter.SubmitResult (quorum gate), otherwise
-   AssembleDKGResult directly; genuine: every signature in the map was produced by the real
-   signer of the seat's operator over the client's hash *)
+   AssembleDKGResult directly; genuine: every signature in the map was ACCEPTED by the client,
+   i.e. passed dkgResultSigner.VerifySignature with the public key of its seat's operator over
+   the client's hash (what tecdsa/dkg verifyDKGResultSignatures demands before a signature
+   enters the map) *)
 | CDkg (p : params) (quorum : N) (via_submit genuine : bool) (i : dkg_in) (o : dkg_obs)
 | CClaim (inact_thr : N) (c : claim_in) (o : claim_obs)
 | CConsts (k : consts)
@@ -859,3 +877,23 @@ Definition claim_supporters_signed (keccak : bytes -> bytes) (operator_of : N ->
       client_claim_preimage (c_chainid c) (c_nonce c) (c_x c) (c_y c)
                             (new_claim_inactive (c_raw c)) (c_hbf c) = Some pre
       /\ signed (operator_of id) (keccak (client_eth_preimage (keccak pre))) s.
+
+(* pkg/chain/ethereum/signer.go, signer.VerifyWithPublicKey AS REPAIRED (/repo commit "fix:
+   ethereum signer verifies the recovery byte of operator signatures"), read on the contract's
+   terms: keep-common's verification of R || S (go-ethereum crypto.VerifySignature: lower-S only)
+   succeeded, the signature has 65 bytes, V is 27 or 28 and Ecrecover(prefixed hash,
+   R || S || V - 27) is the given public key.  Keys are identified with their addresses and
+   go-ethereum's Ecrecover with the precompile [ecrecover]. *)
+Definition client_accepts (ecrecover : bytes -> N -> bytes -> bytes -> N)
+           (addr : N) (digest sig : bytes) : bool :=
+  (lenN sig =? 65) && (be_value (sig_s sig) <=? half_n)
+  && ((sig_v sig =? 27) || (sig_v sig =? 28))
+  && (ecrecover digest (sig_v sig) (sig_r sig) (sig_s sig) =? addr).
+(* BEFORE the repair the V byte was stripped and never looked at: R || S verified for the key,
+   i.e. one of the two recovery ids recovers it *)
+Definition client_accepts_before_fix (ecrecover : bytes -> N -> bytes -> bytes -> N)
+           (addr : N) (digest sig : bytes) : bool :=
+  (lenN sig =? 65) && (be_value (sig_s sig) <=? half_n)
+  && ((ecrecover digest 27 (sig_r sig) (sig_s sig) =? addr)
+      || (ecrecover digest 28 (sig_r sig) (sig_s sig) =? addr)).
+
